@@ -163,7 +163,12 @@ class Trunc(Part):
         base = {k: [[-1.0, -2.0, 3.0, 4.5][k % 4], float(k)] for k in set(keys)}
         vectors = [base[k] for k in keys]
         inds = make_inds(rng, absvecs, vectors)
-        DummySelector([]).fast_nondominated_sorting(inds)
+        st0, res0 = observe(DummySelector([]).fast_nondominated_sorting, inds)
+        unranked = [i + 1 for i in range(n) if not inds[i].features.get("front_number") or inds[i].features.get("crowding_distance") is None]
+        if st0 == "exc" or unranked:
+            # the ranking step itself failed or left members without front / crowding distance: an observation, not a harness error
+            return [{"ev": "trunc", "pop": [], "size": case["size"], "kept": [], "ranked": False,
+                     "exc": res0 if st0 == "exc" else "sorting left members %s without front number or crowding distance" % unranked}]
         pop = [{"k": keys[i], "v": {"c": absvecs[i]["c"], "m": absvecs[i]["m"]},
                 "front": inds[i].features["front_number"] or 0, "cd": rat(inds[i].features["crowding_distance"])}
                for i in range(n)]
